@@ -1041,7 +1041,7 @@ func workflowCmd(job []byte, out *Out) error {
 	for i := 0; i < len(js.Jobs); i++ {
 		if js.Jobs[i].Conc > 0 && js.Jobs[i].Fn == "SingleDetect" {
 			// a run of single-shot jobs with the same group number executes simultaneously (each on its own source), behind a
-			// start barrier, three rounds; every execution is reported and judged on its own
+			// start barrier, eight rounds; every execution is reported and judged on its own
 			k := i
 			for k < len(js.Jobs) && js.Jobs[k].Conc == js.Jobs[i].Conc && js.Jobs[k].Fn == "SingleDetect" {
 				k++
@@ -1049,7 +1049,7 @@ func workflowCmd(job []byte, out *Out) error {
 			restoreRegistry()
 			group := js.Jobs[i:k]
 			results := make([]map[string]interface{}, len(group))
-			for round := 0; round < 3; round++ {
+			for round := 0; round < 8; round++ {
 				var wg sync.WaitGroup
 				start := make(chan struct{})
 				for g := range group {
